@@ -1307,6 +1307,8 @@ package pfcp
 //@     fold srvWF(s)
 
 // ---------------------------------------------------------------------------------------------
+// An empty ReceivePacket is the receiver's "I am closing" marker for the event loop: a datagram must never be queued
+// as one ([marker]), otherwise a single empty datagram stops the control plane (C07).
 // What runs outside the event loop (supporting evidence for the ownership argument, not a decision of C17): these
 // functions are proved to write nothing but the channel they hand their item to.
 //@ func (s *PfcpServer) NotifySessReport(sr report.SessReport)
@@ -1324,6 +1326,8 @@ package pfcp
 //@   loop for():
 //@     modifies chanstate(s.rcvCh), buf[_]
 //@     invariant [open] s != nil && s.conn != nil && s.rcvCh != nil && !closed(s.rcvCh)
+//@   at call copy:
+//@     assert [marker] len(arg0) > 0
 
 // Construction: a new server satisfies the precondition of its event loop.  A-DPEMPTY (entry assumption): the data
 // plane holds no rule when the server is created.  recoveryTime is written here and by no function under contract
